@@ -328,7 +328,14 @@ Lemma params_eqb_refl p : params_eqb p p = true.
 Proof.
   unfold params_eqb. replace (params_same p p) with true; [reflexivity|].
   induction p as [|[k v] p IH]; simpl; [reflexivity|].
-  rewrite str_eqb_refl, <- IH. destruct v; simpl; [rewrite str_eqb_refl | rewrite Z.eqb_refl]; reflexivity.
+  rewrite str_eqb_refl, <- IH. destruct v; simpl; [rewrite str_eqb_refl | rewrite Z.eqb_refl | rewrite str_eqb_refl]; reflexivity.
+Qed.
+
+Lemma sgroups_eqb_refl g : sgroups_eqb g g = true.
+Proof.
+  unfold sgroups_eqb. replace (ssame g g) with true; [reflexivity|].
+  induction g as [|[k v] g IH]; simpl; [reflexivity|].
+  rewrite str_eqb_refl, <- IH. destruct v; simpl; [rewrite str_eqb_refl|]; reflexivity.
 Qed.
 
 Theorem oracle_sound cinst cmulti a method path :
@@ -336,6 +343,64 @@ Theorem oracle_sound cinst cmulti a method path :
   dispatch_oracle cinst cmulti a method path (get_responder cinst cmulti a method path) = true.
 Proof.
   unfold dispatch_oracle. destruct (get_responder cinst cmulti a method path); intro H; simpl;
-    rewrite ?N.eqb_refl, ?str_eqb_refl, ?strs_eqb_refl, ?params_eqb_refl; try reflexivity.
+    rewrite ?N.eqb_refl, ?str_eqb_refl, ?strs_eqb_refl, ?params_eqb_refl, ?sgroups_eqb_refl; try reflexivity.
   contradiction.
+Qed.
+
+(* ------------------------------------------------------------------ sink kwargs are complete *)
+Lemma gset_keys e n v : In n (map fst e) -> map fst (gset e n v) = map fst e.
+Proof.
+  induction e as [|[k x] e IH]; simpl; [contradiction|].
+  destruct (str_eqb n k) eqn:E; [reflexivity|]. intros [H|H].
+  - subst. rewrite str_eqb_refl in E. discriminate.
+  - simpl. rewrite IH; auto.
+Qed.
+
+Definition keeps (K : list str) (k : str -> sgroups -> option sgroups) : Prop :=
+  forall s e g, map fst e = K -> k s e = Some g -> map fst g = K.
+
+Lemma greedy_keys K c s : forall e k g,
+  keeps K k -> map fst e = K -> greedy c s e k = Some g -> map fst g = K.
+Proof.
+  induction s as [|ch s IH]; intros e k g Hk He H; simpl in H; [eapply Hk; eauto|].
+  destruct (cls_ok c ch); [|eapply Hk; eauto].
+  destruct (greedy c s e k) eqn:G; [injection H as <-; eapply IH; eauto | eapply Hk; eauto].
+Qed.
+
+Lemma rmatch_keys K r : forall s e k g,
+  (forall n, In n (rx_names r) -> In n K) ->
+  keeps K k -> map fst e = K -> rmatch r s e k = Some g -> map fst g = K.
+Proof.
+  induction r as [l|c q|n r IH|r IH|a IHa b IHb|a IHa b IHb]; intros s e k g Hn Hk He H; simpl in H.
+  - destruct (drop_prefix l s); [eapply Hk; eauto | discriminate].
+  - destruct q.
+    + destruct s as [|ch s]; [discriminate|]. destruct (cls_ok c ch); [eapply Hk; eauto | discriminate].
+    + destruct s as [|ch s]; [discriminate|]. destruct (cls_ok c ch); [|discriminate].
+      eapply greedy_keys; eauto.
+    + eapply greedy_keys; eauto.
+  - eapply IH; [| |exact He|exact H].
+    + intros m Hm. apply Hn. simpl. right. exact Hm.
+    + intros s' e' g' He' Hg'. eapply Hk; [|exact Hg']. rewrite gset_keys; [exact He'|].
+      rewrite He'. apply Hn. simpl. left. reflexivity.
+  - destruct (rmatch r s e k) eqn:R.
+    + injection H as <-. eapply IH; eauto.
+    + eapply Hk; eauto.
+  - destruct (rmatch a s e k) eqn:R.
+    + injection H as <-. eapply IHa; eauto. intros m Hm. apply Hn. simpl. apply in_or_app. left. exact Hm.
+    + eapply IHb; eauto. intros m Hm. apply Hn. simpl. apply in_or_app. right. exact Hm.
+  - eapply IHa; [| |exact He|exact H].
+    + intros m Hm. apply Hn. simpl. apply in_or_app. left. exact Hm.
+    + intros s' e' g' He' Hg'. eapply IHb; eauto. intros m Hm. apply Hn. simpl. apply in_or_app. right. exact Hm.
+Qed.
+
+(* the kwargs of a sink are ALL named groups of its pattern (non-participating ones as None) *)
+Theorem sink_kwargs_complete p path g :
+  spat_match p path = Some g -> map fst g = rx_names p.
+Proof.
+  unfold spat_match. intro H.
+  assert (E : map fst (map (fun n : str => (n, @None str)) (rx_names p)) = rx_names p)
+    by (rewrite map_map; simpl; apply map_id).
+  eapply rmatch_keys in H; [rewrite H; reflexivity | | | exact E].
+  - intros n Hn. exact Hn.
+  - intros s e g' He Hg. injection Hg as <-. exact He.
 Qed.
